@@ -33,6 +33,18 @@ class Clause:
     def oid(self, fnkey):
         return '%s/%s#%d' % (fnkey, self.kind, self.index)
 
+    def props_for(self, site):
+        """property tags that apply when the clause is checked in function `site` (tags may be restricted: C01@ScancodeSet2)"""
+        out = []
+        for p in self.props:
+            if '@' in p:
+                name, where = p.split('@', 1)
+                if where in site:
+                    out.append(name)
+            else:
+                out.append(p)
+        return out
+
 
 @dataclass
 class FnContract:
@@ -48,6 +60,7 @@ class FnContract:
         s = []
         for c in self.clauses:
             for p in c.props:
+                p = p.split('@')[0]
                 if p not in s:
                     s.append(p)
         return s
